@@ -8,7 +8,10 @@ DRV=$V/engine/vdrv/target/debug/vdrv
 [ -x "$DRV" ] || { echo "extract: driver not built (run setup)"; exit 3; }
 export LD_LIBRARY_PATH="$(rustc +nightly --print sysroot)/lib"
 TGT="${VDRV_TARGET:-$V/.work/target-$CFG}"
-mkdir -p "$TGT"
+mkdir -p "$TGT" "$V/.work"
+# one extraction per target directory at a time (checks, sensitivity runs and seed evaluations share it)
+exec 9>"$V/.work/extract-$CFG.lock"
+flock 9
 # force the wrapper to run again: remove the crate's fingerprints
 rm -rf "$TGT"/debug/.fingerprint/pathrs-* 2>/dev/null || true
 FEAT=""
